@@ -4750,4 +4750,7 @@ pub mod verif_hooks {
     pub fn encode_value_as_key<B: crate::encoding::key::KeyBuffer>(value: &crate::types::OwnedValue, buf: &mut B) {
         super::Database::encode_value_as_key(value, buf)
     }
+    pub fn encode_index_probe_key(value: &crate::types::OwnedValue, buf: &mut Vec<u8>) {
+        super::Database::encode_index_probe_key(value, buf)
+    }
 }
